@@ -10,7 +10,7 @@ set_option linter.unusedSimpArgs false
 set_option linter.unusedVariables false
 set_option linter.unusedSectionVars false
 
-namespace AurelVerif.C05
+namespace AurelVerif.C05L
 open AurelVerif.Gen.Core AurelVerif.Tensor AurelVerif.CoreTac AurelVerif.C08 AurelVerif.Spec.Covd
 
 variable {K : Type} [Field K]
@@ -173,4 +173,4 @@ def LCuud3 (e : Env K) (a b c : Fin 3) : K :=
 def curlRaw (e : Env K) (f : Fin 3 → Fin 3 → K) (a b : Fin 3) : K :=
   ∑ c, ∑ d, LCuud3 e c d a * s_covd_dd e f c b d
 
-end AurelVerif.C05
+end AurelVerif.C05L
